@@ -78,8 +78,11 @@ def explain(eco, deps, L, extra, missing):
             if forms.get((m[0], m[1])) == "block" or (forms.get((m[0], m[1])) == "single" and not L["comment"]):
                 known.add("F-C04-9"); missing.remove(m)
     if eco == "gha" and L["flow"]:
+        # only the steps that were actually WRITTEN as flow mappings (the renderer keeps steps with a trailing comment in block style)
+        flow_written = set((d[3][0], d[3][1], d[3][2]) for d in deps if d[0] == "uses" and d[2] is None and d[3])
         for m in list(missing):
-            known.add("F-C04-10"); missing.remove(m)
+            if m in flow_written:
+                known.add("F-C04-10"); missing.remove(m)
     rest = [("checked but not declared", e) for e in extra] + [("declared but not checked", m) for m in missing]
     return known, rest
 
